@@ -245,7 +245,7 @@ def main_check(prop, tier, seed, n_runs=None, workers=None, time_cap=None):
     P = props.PROPS[prop]
     workers = workers or min(16, os.cpu_count() or 4)
     n_runs = n_runs or P["runs"][tier]
-    time_cap = time_cap or (P.get("cap", {}).get(tier) or (150 if tier == "quick" else 3000))
+    time_cap = time_cap or (P.get("cap", {}).get(tier) or (240 if tier == "quick" else 3300))
     base = scratch_base()
     print("VERIF_SEED=%d property=%s tier=%s runs=%d workers=%d" % (seed, prop, tier, n_runs, workers))
     sys.stdout.flush()
